@@ -73,7 +73,7 @@ def generate(rng, tier):
         preds.append(('spherical_ref', [rr, tt, wk, sp, P.add('TSphWave', rr, tt, wk, sp)]))
         preds.append(('constants_are', [[P.add('TConst', j) for j in range(5)]]))
         # optics
-        nidx = P.add('GScalar', P.f(r.choice([1.0, 1.33, 1.5, 2.4, r.uniform(1.0, 3.0)])))
+        nidx = P.add('GScalar', P.f(r.choice([1.0, 1.33, 1.5, 2.4, r.uniform(1.0, 3.0), 100.0, r.logu(1.0, 1e3)])))
         preds.append(('refract_ref', [g, nidx, P.add('TRefract', g, nidx)]))
         zs = [P.add('GNewAngle', P.f(r.uniform(0, 0.5)), canon_angle(P, r, False)) for _ in range(r.below(5))]
         preds.append(('aberrate_ref', [g, zs, P.add('TAberrate', g, *zs)]))
